@@ -31,7 +31,7 @@ SCOPE = ('the real compute_ray is executed with a SYMBOLIC DIRECTION: math.sin /
          'because the directions are concrete outputs of numpy linspace/arctan2')
 BOUNDS = {
     'quick': dict(symbolic='areas 1x1..3x3 all origins; 7x7 (the shipped view) from origin (6,3) and the four corners; 4 sign quadrants each; step_size 0.01',
-                  enumeration='all areas h,w <= 7 with all origins (fan, fancy fan, raytracing visibility), offsets (0,0) and (-3,-2)'),
+                  enumeration='all areas h,w <= 7 with all origins (fancy fan, raytracing visibility; 1-degree fan on small areas), offsets (0,0) and (-3,-2) for small areas; 8x8, 9x9, 8x10, 10x8, 10x10, 11x11, 7x13, 13x7, 13x13 from corners, edge midpoints and centre'),
     'thorough': dict(symbolic='plus every origin of 5x5 and 7x7, 9x9 corners and centre, 4x7 / 7x4', enumeration='all areas h,w <= 9, 13x13 corners and centre'),
 }
 OUTSIDE = ('directions are arbitrary only up to the stub contract for sin/cos (validated concretely on every angle of every enumerated fan); '
@@ -167,11 +167,12 @@ class IndexSource:
     everything else is the real itertools"""
 
     def __init__(self, idx):
-        self.idx = list(idx)
+        self.idx, self.calls = list(idx), 0
 
     def count(self, *args):
         if args:
             raise NotImplementedError('count() with arguments')
+        self.calls += 1
         return iter(self.idx)
 
     def __getattr__(self, name):
@@ -214,15 +215,18 @@ def mk_ray(area, origin, quadrant, step=0.01):
         i = int(sx.int('i', 0, cap))
         idx = [i, i + 1] if i < cap else [cap]
         real_math, real_itt = RT.math, RT.itt
-        RT.math, RT.itt = env, IndexSource(idx)
+        source = IndexSource(idx)
+        RT.math, RT.itt = env, source
         try:
             ray = RT.compute_ray(Position(oy, ox), A, radians=env.theta, step_size=step, unique=False)
         finally:
             RT.math, RT.itt = real_math, real_itt
         n = len(ray)
         pairs = [(env.rounds[2 * k], env.rounds[2 * k + 1]) for k in range(len(env.rounds) // 2)]
-        sx.check(len(env.rounds) % 2 == 0 and len(pairs) == min(n + 1, len(idx)), 'samples-are-computed-one-pair-at-a-time-until-the-first-outside',
-                 f'{n} returned, {len(pairs)} computed')
+        if not source.calls or len(env.rounds) % 2 or len(pairs) < min(n + 1, len(idx)) or len(pairs) > len(idx):
+            # the function no longer draws its sample indices from itertools.count() / rounds one (y, x) pair per sample: this harness cannot
+            # drive it (not a verdict)
+            raise EngineError(f'compute_ray is not driven by the stubbed sample indices ({source.calls} index streams, {len(env.rounds)} roundings, {n} cells)')
         sx.check(sym_and(*[sym_and(A.ymin <= p.y, p.y <= A.ymax, A.xmin <= p.x, p.x <= A.xmax) for p in ray]), 'returned-cells-lie-inside-the-area')
         sx.check(sym_and(*[sym_and(ray[k].y == pairs[k][0], ray[k].x == pairs[k][1]) for k in range(n)]), 'returned-cells-are-the-rounded-samples')
         if i == cap:
@@ -382,6 +386,11 @@ def obligations(tier):
     top = 7 if q else 9
     for h in range(1, top + 1):
         obs.append(Obligation(f'side-fans-height{h}', side_fans([(h, w, None) for w in range(1, top + 1)], [(0, 0), (-3, -2)], f'areas {h}x1..{h}x{top}'), kind='concrete'))
+    def rim(h, w):  # corners, edge midpoints, centre
+        return sorted({(y, x) for y in (0, h // 2, h - 1) for x in (0, w // 2, w - 1)})
+    for group in ([(8, 8), (9, 9), (8, 10), (10, 8)], [(10, 10), (11, 11), (7, 13), (13, 7)], [(13, 13)]):
+        obs.append(Obligation('side-fans-large-' + '-'.join(f'{h}x{w}' for h, w in group), side_fans([(h, w, rim(h, w)) for h, w in group], [(0, 0)],
+                                                                                                    'larger areas from corners, edge midpoints and centre'), kind='concrete'))
     if not q:
         obs.append(Obligation('side-fans-13x13', side_fans([(13, 13, [(0, 0), (12, 12), (6, 6), (12, 6)])], [(0, 0)], 'area 13x13 corners, centre, bottom centre'), kind='concrete'))
     return obs
